@@ -550,6 +550,48 @@ def r10(ctx, facts):
             r.instance("option-null-only-for-none", ok, "Option<T>::serialize writes null where `self` is not known to be None", c.span)
 
 
+def r11(ctx, facts):
+    r = ctx.rule("R11", "signed vints: zig-zag is the 64-bit transform (term for term), it has one encoder and one decoder, and duration components reach it widened to i64", floor=5)
+    from ..terms import Evaluator, mk, c as C, fmt as tfmt
+    T = "scylla_cql_core::frame::types::"
+    ev = Evaluator(facts)
+    v = ("in", "v")
+    eb = facts.one(r"^%szig_zag_encode$" % T)
+    got, _ = ev.eval_body(eb, [], 0)
+    ref = mk("xor", ("shr", "s", v, C(63)), mk("shl", v, C(1)))
+    r.instance("zig-zag-encode", got == ref, "zig_zag_encode(v) = %s; must be (v >> 63) ^ (v << 1) on i64" % tfmt(got), eb.span)
+    db = facts.one(r"^%szig_zag_decode$" % T)
+    got, _ = ev.eval_body(db, [], 0)
+    ref = mk("xor", ("shr", "u", v, C(1)), ("un", "Neg", mk("and", v, C(1))))
+    r.instance("zig-zag-decode", got == ref, "zig_zag_decode(v) = %s; must be (v >> 1) ^ -(v & 1)" % tfmt(got), db.span)
+    from ..util import callers_keys
+    enc = sorted(set(callers_keys(facts, T + "zig_zag_encode", crate_prefix="scylla_cql_core")))
+    dec = sorted({fn_short(x.path) for x in facts.bodies.mentioning("zig_zag_decode") if x.crate == "scylla_cql_core" and not x.path.endswith("zig_zag_decode") and "::promoted[" not in x.path})
+    r.instance("one-signed-encoder", enc == ["types::vint_encode"], "zig_zag_encode is used by %s (must be vint_encode only)" % enc)
+    r.instance("one-signed-decoder", all(x.startswith("types::vint_decode") for x in dec) and bool(dec), "zig_zag_decode is used by %s (must be vint_decode only)" % dec)
+    # the duration serializer: three vint_encode calls, the 32-bit components widened first; nothing else produces its bytes
+    n = 0
+    for b in facts.find(r"^<scylla_cql_core::value::CqlDuration as scylla_cql_core::serialize::value::SerializeValue>::serialize"):
+        for body in closure_family(facts, b):
+            calls = [x for bb, x in body.calls() if bb in body.live_blocks]
+            ve = [x for x in calls if (x.name or "").endswith(T + "vint_encode") or (x.name or "").endswith("types::vint_encode")]
+            raw = [x for x in calls if (x.name or "").endswith("unsigned_vint_encode")]
+            if not ve and not raw:
+                continue
+            n += 1
+            df = df_of(body, facts)
+            casts = 0
+            for x in ve:
+                sd = body.single_def(x.args[0][1][0]) if x.args[0][0] in ("c", "m") else None
+                if sd and sd[0] == "stmt" and sd[3][0] == "cast" and body.ty(sd[3][3]) == "i32" and body.ty(sd[3][4]) == "i64":
+                    casts += 1
+            r.instance("duration-through-vint_encode", len(ve) == 3 and not raw and casts == 2,
+                       "CqlDuration::serialize must emit months, days (i32 widened to i64) and nanoseconds through the codec's own vint_encode: found %d vint_encode calls (%d on widened i32), %d direct unsigned_vint_encode calls "
+                       "- a 32-bit zig-zag sign-extends into a 9-byte vint for |value| >= 2^30" % (len(ve), casts, len(raw)), (raw or ve)[0].span)
+    if n == 0:
+        raise AnchorLost("CqlDuration::serialize: no vint encoding found")
+
+
 def check(ctx):
     facts = inline_view(ctx.facts("default"))
     A = Accept(facts)
@@ -558,7 +600,7 @@ def check(ctx):
         tabs = r1(ctx, facts, A)
     except AnchorLost as ex:
         ctx.rule("R1x", "anchors").fail("anchor-lost", str(ex))
-    for fn in ((lambda c, f: r2(c, f, tabs)) if tabs else None, r3, r4, r5, r6, r7, r8, r9, r10):
+    for fn in ((lambda c, f: r2(c, f, tabs)) if tabs else None, r3, r4, r5, r6, r7, r8, r9, r10, r11):
         if fn is None:
             continue
         try:
